@@ -99,24 +99,8 @@ class StrMixin:
         raise GenError("str.%s" % name)
 
     def mk_strip(self, name, s):
-        th = self.th
-        S = th.Str
-        f = self.sfun(name, S, S)
-        t = f(s)
         used_axioms.add("str.strip.idem")
-        self.pc.append(f(t) == t)
-        self.pc.append(th.length(t) <= th.length(s))
-        for af in th.additive:
-            self.pc.append(af(t) <= af(s))
-        self.pc.append(z3.Implies(s == th.empty, t == th.empty))
-        if name == "strip":
-            used_axioms.add("str.strip.both")
-            l, r = self.sfun("lstrip", S, S), self.sfun("rstrip", S, S)
-            self.pc.append(t == l(r(s)))
-            self.pc.append(t == r(l(s)))
-            self.pc.append(l(t) == t)
-            self.pc.append(r(t) == t)
-        return t
+        return self.sfun(name, self.th.Str, self.th.Str)(s)
 
     # ---- join
     def str_join(self, sep, xs):
@@ -134,27 +118,44 @@ class StrMixin:
         return self.wrap(self.mk_joinr(self.z(sep), xs.arr, z3.IntVal(0), self.z(xs.length)), "str")
 
     def mk_joinr(self, sep, arr, a, b, depth=2):
-        """Term for sep.join(arr[a:b]) plus instantiated unfolding / store-stability facts."""
+        """Term for sep.join(arr[a:b]); its unfolding / store-stability facts are attached per query
+        by `unfold` (vc.definitional)."""
+        used_axioms.add("str.join.def")
+        f = self.sfun("joinr", self.th.Str, z3.ArraySort(Int, self.th.Str), Int, Int, self.th.Str)
+        return f(sep, arr, z3.simplify(a), z3.simplify(b))
+
+    def unfold(self, app):
+        """Definitional facts of one application of a spec function (instances of its definition)."""
         th = self.th
         S = th.Str
-        used_axioms.add("str.join.def")
-        f = self.sfun("joinr", S, z3.ArraySort(Int, S), Int, Int, S)
-        a, b = z3.simplify(a), z3.simplify(b)
-        t = f(sep, arr, a, b)
-        key = t.get_id()
-        if key in self.joinr_done or depth <= 0:
-            return t
-        self.joinr_done.add(key)
-        facts = self.pc
-        facts.append(z3.Implies(b <= a, t == th.empty))
-        facts.append(z3.Implies(b == a + 1, t == z3.Select(arr, a)))
-        prev = self.mk_joinr(sep, arr, a, b - 1, depth - 1)
-        facts.append(z3.Implies(b > a + 1, t == th.cat(prev, sep, z3.Select(arr, z3.simplify(b - 1)))))
-        if z3.is_app(arr) and arr.decl().kind() == z3.Z3_OP_STORE:
-            arr0, i = arr.arg(0), arr.arg(1)
-            base = self.mk_joinr(sep, arr0, a, b, depth)
-            facts.append(z3.Implies(z3.Or(i < a, i >= b), t == base))
-        return t
+        name = app.decl().name()
+        facts = []
+        if name == "joinr":
+            f = app.decl()
+            sep, arr, a, b = app.arg(0), app.arg(1), app.arg(2), app.arg(3)
+            facts.append(z3.Implies(b <= a, app == th.empty))
+            facts.append(z3.Implies(b == a + 1, app == z3.Select(arr, a)))
+            bm1 = z3.simplify(b - 1)
+            facts.append(z3.Implies(b > a + 1, app == th.cat(f(sep, arr, a, bm1), sep, z3.Select(arr, bm1))))
+            if z3.is_app(arr) and arr.decl().kind() == z3.Z3_OP_STORE:
+                arr0, i = arr.arg(0), arr.arg(1)
+                facts.append(z3.Implies(z3.Or(i < a, i >= b), app == f(sep, arr0, a, b)))
+            return facts
+        if name in ("strip", "lstrip", "rstrip"):
+            s = app.arg(0)
+            f = app.decl()
+            facts.append(f(app) == app)
+            facts.append(th.length(app) <= th.length(s))
+            for af in th.additive:
+                facts.append(af(app) <= af(s))
+            facts.append(z3.Implies(s == th.empty, app == th.empty))
+            if name == "strip":
+                used_axioms.add("str.strip.both")
+                l, r = self.sfun("lstrip", S, S), self.sfun("rstrip", S, S)
+                facts.append(app == l(r(s)))
+                facts.append(app == r(l(s)))
+            return facts
+        return facts
 
     # ---- split
     def str_split(self, recv, args, kwargs):
